@@ -52,12 +52,13 @@ pub fn show_goal(g: &Value) -> String {
         _ => String::new(),
     }
 }
-pub fn show_prog(prog: &Value) -> String {
+pub fn show_clauses(prog: &Value) -> Vec<String> {
     prog.as_array().unwrap().iter().map(|cl| {
         let h = show(&tm_from_json(&cl["head"]));
-        if cl["body"]["g"] == "nil" { format!("{}.", h) } else { format!("{} :- {}.", h, show_goal(&cl["body"])) }
-    }).collect::<Vec<_>>().join(" ").replace("_0", "")
+        (if cl["body"]["g"] == "nil" { format!("{}.", h) } else { format!("{} :- {}.", h, show_goal(&cl["body"])) }).replace("_0", "")
+    }).collect()
 }
+pub fn show_prog(prog: &Value) -> String { show_clauses(prog).join(" ") }
 
 #[derive(Debug, Clone, PartialEq)]
 pub struct Seg { pub out: String, pub some: bool, pub ans: Vec<Tm> }
@@ -178,6 +179,7 @@ pub fn props_of(case: &Value) -> Vec<&'static str> {
     let mut v = vec![owner_of(slice), "C05", "C11", "C10"];
     if slice == "alias" { v.push("C08"); }
     if slice != "print" { v.push("C04"); }
+    if slice != "deep" { v.push("C19"); v.push("C21"); }
     v
 }
 
@@ -357,6 +359,56 @@ pub fn replay(case: &Value) -> Vec<Obs> {
         }
     }
 
+    // The same program as SOURCE TEXT: every clause through parse_rule, the whole of it through load_kb_from_file,
+    // the query through parse_query.  C19: the rule parser gives the clause the specification wrote down; C21: the file
+    // gives the same knowledge base as the rules one by one; and (slice owner) the search over the LOADED knowledge
+    // base observes what the reference observes.
+    if slice != "deep" && has_source_text(&case["prog"]) {
+        let texts = show_clauses(&case["prog"]);
+        let built = crate::reader::structure(&kb);
+        let mut kb_rules = KnowledgeBase::new();
+        let mut parsed_all = true;
+        for t in &texts {
+            match catch_unwind(AssertUnwindSafe(|| parse_rule(t))) {
+                Ok(Ok(r)) => add_rules(&mut kb_rules, vec![r]),
+                Ok(Err(e)) => { parsed_all = false; obs.push(Obs::bad("C19", "program-text", format!("{} :: parse_rule({:?}) -> error {}", what, t, e.replace('\n', " ")))); break; }
+                Err(_) => { parsed_all = false; obs.push(Obs::bad("C19", "program-text", format!("{} :: parse_rule({:?}) panicked", what, t))); break; }
+            }
+        }
+        if parsed_all {
+            let from_rules = crate::reader::structure(&kb_rules);
+            if from_rules == built { obs.push(Obs::ok("C19", "program-text")); }
+            else { obs.push(Obs::bad("C19", "program-text", format!("{} :: the rule parser gives {:?} instead of {:?}", what, from_rules, built))); }
+            let path = format!("solve_tmp_{}.txt", std::process::id());
+            let mut text = texts.join("\n"); text.push('\n');
+            if std::fs::write(&path, &text).is_err() { return vec![Obs::bad("TOOL", "write", path)]; }
+            let mut kb_file = KnowledgeBase::new();
+            let res = catch_unwind(AssertUnwindSafe(|| load_kb_from_file(&mut kb_file, &path)));
+            let _ = std::fs::remove_file(&path);
+            match res {
+                Ok(None) if crate::reader::structure(&kb_file) == from_rules && format_kb(&kb_file) == format_kb(&kb_rules) => {
+                    obs.push(Obs::ok("C21", "program-file"));
+                    if from_rules == built && first_part_ok {
+                        let qtext = show(&qt).replace("_0", "");
+                        match catch_unwind(AssertUnwindSafe(|| parse_query(&qtext))) {
+                            Ok(Ok(q3)) => {
+                                let mut r3 = run_query(&kb_file, &q3, expect.len());
+                                if slice == "time" { for sg in r3.segs.iter_mut() { sg.out = mask_time(&sg.out); } }
+                                let same = r3.panic.is_none() && r3.segs.len() == expect.len() && (0..expect.len()).all(|i| r3.segs[i].some == exp_at(i).some && r3.segs[i].ans == exp_at(i).ans && r3.segs[i].out == exp_at(i).out);
+                                if same { obs.push(Obs::ok(owner, "answers-from-source-text")); }
+                                else { obs.push(Obs::bad(owner, "answers-from-source-text", format!("{} :: loaded from its source text: reference {} / engine {}", what, show_segs(&expect), show_segs(&r3.segs)))); }
+                            }
+                            other => obs.push(Obs::bad("C19", "query-text", format!("{} :: parse_query({:?}) -> {:?}", what, qtext, other.map(|r| r.map(|g| g.to_string()))))),
+                        }
+                    }
+                }
+                Ok(None) => obs.push(Obs::bad("C21", "program-file", format!("{} :: file {:?} loaded as {:?} instead of {:?}", what, text, format_kb(&kb_file).replace('\n', " | "), format_kb(&kb_rules).replace('\n', " | ")))),
+                Ok(Some(e)) => obs.push(Obs::bad("C21", "program-file", format!("{} :: file {:?} rejected: {}", what, text, e.replace('\n', " ")))),
+                Err(_) => obs.push(Obs::bad("C21", "program-file", format!("{} :: file {:?}: load_kb_from_file panicked", what, text))),
+            }
+        }
+    }
+
     // C11: alpha-variants of the program observe the same
     if let Some(vars) = case["variants"].as_array() {
         let mut bad = None;
@@ -384,6 +436,31 @@ pub fn replay(case: &Value) -> Vec<Obs> {
         match bad { None => obs.push(Obs::ok("C11", "alpha-variants")), Some(d) => obs.push(Obs::bad("C11", "alpha-variants", d)) }
     }
     obs
+}
+
+/// Does the program (built by the specification from goal constructors) have a text in the documented syntax that
+/// show_clauses writes?  Not when a conjunction sits directly inside a conjunction (or a disjunction inside one), when
+/// `and` / `or` has fewer than two goals, when not(..) / time(..) is applied to a conjunction or disjunction, or when
+/// a variable's name is not `$` followed by a letter.  (Decided on the specification's case alone.)
+fn has_source_text(prog: &Value) -> bool {
+    fn goal_ok(g: &Value) -> bool {
+        let kind = g["g"].as_str().unwrap_or("");
+        let kids: Vec<&Value> = g["gs"].as_array().map(|a| a.iter().collect()).unwrap_or_default();
+        match kind {
+            "and" | "or" => kids.len() >= 2 && kids.iter().all(|k| k["g"].as_str() != Some(kind) && goal_ok(k)),
+            "not" | "time" => kids.len() == 1 && !matches!(kids[0]["g"].as_str(), Some("and") | Some("or")) && goal_ok(kids[0]),
+            "call" => term_ok(&g["t"]),
+            "bip" => g["a"].as_array().map(|a| a.iter().all(term_ok)).unwrap_or(true),
+            _ => true,
+        }
+    }
+    fn term_ok(t: &Value) -> bool {
+        match t["k"].as_str() {
+            Some("var") => { let n: Vec<char> = t["s"].as_str().unwrap_or("").chars().collect(); n.len() >= 2 && n[0] == '$' && n[1].is_alphabetic() }
+            _ => ["a", "t"].iter().all(|k| t[*k].as_array().map(|a| a.iter().all(term_ok)).unwrap_or(true)),
+        }
+    }
+    prog.as_array().unwrap().iter().all(|cl| term_ok(&cl["head"]) && goal_ok(&cl["body"]))
 }
 
 /// a list whose tail is (was replaced by) a list is that longer list: `[a | [b, c]]` is `[a, b, c]`
